@@ -51,6 +51,9 @@ def parse_contracts(path):
                 sec = {"kind": d, "text": []}; cur.append(sec)
             elif d in ("loop", "loop?"):
                 sec = {"kind": "loop", "n": int(rest), "text": [], "optional": d.endswith("?")}; cur.append(sec)
+            elif d in ("afterloop", "afterloop?"):
+                # ghost text placed right after the closing brace of loop #N (the first statement after the loop)
+                sec = {"kind": "afterloop", "n": int(rest), "text": [], "optional": d.endswith("?")}; cur.append(sec)
             elif d == "nested":
                 sec = {"kind": "nested", "name": rest, "text": []}; cur.append(sec)
             elif d == "nestedbody":
@@ -201,7 +204,8 @@ def extract(repo, spec, contracts, mode, mutate=None):
     if spec.get("from"):
         # the tail of the function body: from the first occurrence of the anchor statement to the end of the body
         seq = [t.text for t in tokenize(spec["from"])[0]]
-        i = _find_seq(toks, it.body_open + 1, it.b, seq, 1)
+        # from_n=<k>: the k-th occurrence (default: the first)
+        i = _find_seq(toks, it.body_open + 1, it.b, seq, int(spec.get("from_n", "1")))
         if i is None: raise UnitError(f"lost anchor: tail anchor `{spec['from']}` in {spec['item']}")
         a, b = i, it.b - 1
         if spec.get("until"):
@@ -282,6 +286,13 @@ def extract(repo, spec, contracts, mode, mutate=None):
                 if TOLERANT["on"]: ex.lost.append(f"loop #{s['n']}"); continue
                 raise UnitError(f"lost anchor: {ex.id} has no loop #{s['n']}")
             ins.append((ls[s["n"] - 1], order, text))
+        elif s["kind"] == "afterloop":
+            ls = _loops(body, bo + 1, len(body))
+            if s["n"] > len(ls):
+                if s.get("optional"): continue
+                if TOLERANT["on"]: ex.lost.append(f"loop #{s['n']}"); continue
+                raise UnitError(f"lost anchor: {ex.id} has no loop #{s['n']}")
+            ins.append((match_close(body, ls[s["n"] - 1]) + 1, order, text))
         else:
             seq = [t.text for t in tokenize(s["anchor"])[0]]
             i = _find_seq(body, bo + 1, len(body), seq, s["n"])
@@ -381,6 +392,8 @@ def build(unit_dir, repo, mode="verify", mutate=None):
             if mm: sp["from"] = mm.group(1)
             mm = re.search(r'until="([^"]+)"', rest)
             if mm: sp["until"] = mm.group(1)
+            mm = re.search(r'rewrites="([^"]+)"', rest)
+            if mm: sp["rewrites"] = mm.group(1)
             mm = re.search(r'wrap="([^"]+)"', rest)
             if mm: sp["wrap"] = mm.group(1)
             elif "wrap" in sp: del sp["wrap"]
